@@ -132,6 +132,15 @@ pub fn dispatch(cx: &RunCtx) -> bool {
         "C02" => c02(cx),
         "C03" => c03(cx),
         "C04" => c04(cx),
+        "C05" => crate::tchecks::c05(cx),
+        "C06" => crate::tchecks::c06(cx),
+        "C07" => crate::tchecks::c07(cx),
+        "C08" => crate::cchecks::c08(cx),
+        "C09" => crate::tchecks::c09(cx),
+        "C10" => crate::fchecks::c10(cx),
+        "C11" => crate::fchecks::c11(cx),
+        "C18" => crate::nchecks::c18(cx),
+        "C19" => crate::nchecks::c19(cx),
         _ => return false,
     }
     true
